@@ -82,3 +82,29 @@ Proof.
   induction l as [|a l IH]; [reflexivity|]. cbn [length seq map nth]. f_equal.
   rewrite <- seq_shift, map_map. exact IH.
 Qed.
+
+(** the same with the step hypothesis only below a bound [N] *)
+Section IndexedBounded.
+  Context {S A B : Type}.
+  Variable step : S -> A -> S * B.
+  Variable Inv : nat -> S -> Prop.
+  Variable x : nat -> A.
+  Variable y : nat -> B.
+  Variable N : nat.
+  Hypothesis Hstep : forall n s, (n < N)%nat -> Inv n s ->
+                                 Inv (Datatypes.S n) (fst (step s (x n))) /\ snd (step s (x n)) = y n.
+
+  Lemma run_indexed_bounded : forall m k s, (k + m <= N)%nat -> Inv k s ->
+      Inv (k + m) (fst (run_frames step s (map x (seq k m)))) /\
+      snd (run_frames step s (map x (seq k m))) = map y (seq k m).
+  Proof.
+    induction m as [|m IH]; intros k s Hk H.
+    - cbn. rewrite Nat.add_0_r. split; [exact H|reflexivity].
+    - cbn [seq map run_frames]. destruct (Hstep k s ltac:(lia) H) as [H1 H2].
+      destruct (step s (x k)) as [s1 o]. cbn [fst snd] in *.
+      destruct (IH (Datatypes.S k) s1 ltac:(lia) H1) as [I1 I2].
+      destruct (run_frames step s1 (map x (seq (Datatypes.S k) m))) as [s2 os]. cbn [fst snd] in *.
+      split; [replace (k + Datatypes.S m)%nat with (Datatypes.S k + m)%nat by lia; exact I1|].
+      congruence.
+  Qed.
+End IndexedBounded.
